@@ -375,7 +375,7 @@ def run(ctx):
             tasks.append(("r", (row.name, c, bgs, False)))
         for c in chunks(allraw if ctx.thorough else sub, 8):
             tasks.append(("r", (row.name, c, [], True)))
-    ctx.pmap(w_any, tasks)
+    ctx.pmap(w_any, tasks, ambient=True)
     ctx.cov["exhaustive"] = True
     ctx.cov["field_rows"] = len(CF.ROWS)
     ctx.samples.append({"field": "roll50", "status": 1, "sign": 1, "raw": 500, "expected": CF.BY_NAME["roll50"].expected(1, 1, 500),
